@@ -406,7 +406,7 @@ func C15() *engine.Check {
 	return &engine.Check{
 		Property: "C15",
 		Level:    "model_checking",
-		Subs:     []*engine.Sub{parse, parseFold, pairs, pairsFold, triples, join, joinKept, c15ConcSub()},
+		Subs:     []*engine.Sub{parse, parseFold, pairs, pairsFold, triples, join, joinKept, c15ConcSub(), concRaceSub("C15")},
 		Assumptions: []string{
 			"alphabets {/,a,b,A,é,É} and {/,s,ſ,σ,ς,ǆ,ǅ,K}: valid UTF-8 only; behaviour on invalid UTF-8 is not decided by the property",
 			"reference model: strings.Split on '/' after the leading slash; unicode.ToLower per rune",
